@@ -256,3 +256,64 @@ Print Assumptions C04_nextc210_spec.
 Theorem C04_cop210_gcd : forall q, coprime210 q <-> N.gcd (q mod 210) 210 = 1.
 Proof. exact cop210_gcd. Qed.
 Print Assumptions C04_cop210_gcd.
+
+(** EratBig for one segment: with every big sieving prime in a correct, minimal state somewhere in the bucket lists,
+    crossOff clears exactly the bits of the multiples prime*q', q' coprime to 210 from the prime's cofactor on, inside
+    the segment, and leaves such a state (in some bucket list) for the next segment *)
+From PS Require Import Proofs.KernelP Proofs.EratBigSegP Proofs.EratBigInitP Model.Wheel.
+Theorem C04_eratbig_segment_spec : forall log2 low, low mod 30 = 0 ->
+  forall fuel (b : buckets) (ws : list wstate) cl bf,
+  wf log2 b -> Forall (w_ok210 low) ws -> Permutation (abs_of log2 b) (map w_state210 ws) ->
+  eb_cross fuel log2 b [] = Some (cl, bf) ->
+  (forall bb m, In (bb, m) cl <-> clears log2 low ws bb m) /\
+  exists ws', Forall (w_ok210 (low + 30 * size log2)) ws' /\ map w_prime ws' = map w_prime ws /\
+              Permutation (abs_of log2 bf) (map w_state210 ws') /\ wf log2 bf.
+Proof. exact eratbig_segment_spec. Qed.
+Print Assumptions C04_eratbig_segment_spec.
+
+(** Wheel210::addSievingPrime produces such a state (and an index inside what storeSievingPrime's sizing covers) *)
+Theorem C04_asp210_state_ok : forall stop p low mi wi,
+  prime p -> 11 <= p -> p < 2 ^ 32 -> low mod 30 = 0 -> stop <= MAX64 -> low + 6 <= MAX64 ->
+  addSievingPrime210 stop p low = Some (mi, wi) ->
+  exists ri qi q, wi = 48 * ri + qi /\ sprime (p / 30) ri = p /\ w_ok210 low (p / 30, ri, qi, q, mi) /\ p * q <= stop /\
+                  wi < 384 /\
+                  (forall size, 1 <= size -> p * p <= low + 30 * size + 6 -> mi <= size - 1 + (p / 30 * 10 + 10)).
+Proof. exact asp210_state_ok. Qed.
+Print Assumptions C04_asp210_state_ok.
+
+(** a segment sieved by wheel-30 algorithms for some primes and by EratBig (wheel 210) for the others: a number is
+    crossed off or a multiple of 7 (pre-sieved) iff it is p*q for a sieving prime p and a cofactor q >= p coprime to
+    30, or a multiple of 7 - i.e. EratBig together with the pre-sieve clears what the wheel-30 algorithms would *)
+Theorem C04_segment_crossed_mix : forall low high stop pmin (sps30 sps210 : list (N * N)),
+  (forall p q0, In (p, q0) sps30 -> prime p /\ 7 <= p /\ coprime30 q0 /\ p <= q0 /\
+     (forall q, p <= q -> coprime30 q -> low + 7 <= p * q -> q0 <= q)) ->
+  (forall p q0, In (p, q0) sps210 -> prime p /\ 7 <= p /\ coprime210 q0 /\ p <= q0 /\
+     (forall q, p <= q -> coprime210 q -> low + 7 <= p * q -> q0 <= q)) ->
+  (forall p q0, In (p, q0) sps30 \/ In (p, q0) sps210 -> pmin <= p) ->
+  (forall p, prime p -> pmin <= p -> p * p <= high ->
+     (exists q0, In (p, q0) sps30) \/ (exists q0, In (p, q0) sps210) \/
+     (forall q, p <= q -> coprime30 q -> low + 7 <= p * q -> stop < p * q)) ->
+  forall n, low + 7 <= n -> n <= high -> n <= stop ->
+  (crossed sps30 n \/ crossed210 sps210 n \/ n mod 7 = 0 <-> bigfactor pmin n \/ n mod 7 = 0).
+Proof. exact segment_crossed_mix. Qed.
+Print Assumptions C04_segment_crossed_mix.
+
+(** EratMedium: the 64 bucket lists (one per wheel index; every prime re-filed under its new wheel index after the segment)
+    compute what the plain per-prime loop over the step table of crossOff_7 .. crossOff_31 computes, hence clear exactly the
+    multiples prime*q', q' coprime to 30 from the prime's cofactor on, inside the segment *)
+From PS Require Import Model.EratMediumM Proofs.EratMediumP.
+Theorem C04_eratmedium_buckets_refine : forall fuel size b cl nb, length b = 64%nat -> em_cross fuel size b = Some (cl, nb) ->
+  exists cls sts, cross_all fuel eratMediumSteps size (em_abs b) = Some (cls, sts) /\
+                  Permutation cl cls /\ Permutation (em_abs nb) sts /\ length nb = 64%nat.
+Proof. exact em_cross_spec. Qed.
+Print Assumptions C04_eratmedium_buckets_refine.
+
+Theorem C04_eratmedium_segment_spec : forall fuel low size (b : em_buckets) (ws : list wstate) cl nb,
+  low mod 30 = 0 -> length b = 64%nat -> Forall (w_ok low) ws -> Permutation (em_abs b) (map w_state ws) ->
+  em_cross fuel size b = Some (cl, nb) ->
+  (forall bb m, In (bb, m) cl <-> exists x q', In x ws /\ w_q x <= q' /\ coprime30 q' /\ byteof low (w_prime x * q') < size /\
+                                          bb = byteof low (w_prime x * q') /\ m = maskof (w_prime x * q')) /\
+  exists ws', Forall (w_ok (low + 30 * size)) ws' /\ map w_prime ws' = map w_prime ws /\
+              Permutation (em_abs nb) (map w_state ws') /\ length nb = 64%nat.
+Proof. exact em_segment_spec. Qed.
+Print Assumptions C04_eratmedium_segment_spec.
